@@ -15,8 +15,7 @@ Definition plain_symbol (s : bytes) : Prop :=
   match s with
   | [] => False
   | c :: s' =>
-      ((is_ascii_alpha c = true \/ In c ext_initial \/ c = 58) /\
-       (c = 46 -> match s' with [] => False | c2 :: _ => c2 <> 0 /\ is_delimiter c2 = false end))
+      (is_ascii_alpha c = true \/ In c ext_initial \/ c = 58)
       \/ ((c = 43 \/ c = 45) /\ match s' with [] => True | c2 :: _ => sign_next_ok c2 = true end)
   end.
 
@@ -170,8 +169,8 @@ Section Roundtrip.
           if is_closer c then
             (if negb (c =? t) then liftR (peek_error MismatchedParenthesis) else pret (build acc Null))
           else if c =? 46 then
-            pbind (liftR (eat_char ;;; peek_or_null)) (fun nx =>
-            if (nx =? 0) || is_delimiter nx then
+            pbind (liftR (eat_char ;;; peek)) (fun nx =>
+            if lone_dot nx then
               match acc with
               | [] =>
                   pbind (liftR peek) (fun o3 =>
@@ -266,7 +265,7 @@ Section Roundtrip.
       cbn [rt_ok] in Hok. destruct Hok as (Hn & Hsok & Hfirst). destruct s as [|c s']; [contradiction|].
       exists c, s'. split; [reflexivity|].
       assert (Hcls : is_ws c = false /\ c <> 59 /\ is_closer c = false).
-      { destruct Hfirst as [[[Ha|[Hi| ->]] _]|[[->| ->] _]].
+      { destruct Hfirst as [[Ha|[Hi| ->]]|[[->| ->] _]].
         - unfold is_ascii_alpha, is_ascii_lower, is_ascii_upper, in_range in Ha.
           unfold is_ws, is_closer, memb. cbn [existsb]. repeat split; lia.
         - unfold ext_initial in Hi. cbn in Hi.
@@ -383,7 +382,7 @@ Section Roundtrip.
   Proof.
     p_intro f. cbn [rt_ok] in Hok. destruct Hok as (Hn & Hsok & Hfirst).
     change (txt (Symbol s)) with s in *. destruct s as [|c s']; [contradiction|]. cbn [app] in Ha.
-    destruct Hfirst as [[Hc _]|[Hc Hnext]].
+    destruct Hfirst as [Hc|[Hc Hnext]].
     - assert (Hst : starts_datum c).
       { destruct Hc as [Hal|[Hi| ->]].
         - unfold is_ascii_alpha, is_ascii_lower, is_ascii_upper, in_range in Hal.
@@ -444,14 +443,17 @@ Section Roundtrip.
     destruct (b =? 46) eqn:E46.
     - assert (b = 46) by lia. subst b. destruct (H46 eq_refl) as [s ->].
       change (txt (Symbol s)) with s in *. subst s. cbn [rt_ok] in Hok. destruct Hok as (Hn & Hsok & Hfirst).
-      destruct Hfirst as [[_ Hdot]|[[Hc|Hc] _]]; try discriminate.
-      specialize (Hdot eq_refl). destruct t as [|c2 s'']; [contradiction|]. destruct Hdot as [Hc0 Hcd].
+      assert (Hsymok : t <> []).
+      { destruct Hsok as [Hnd _]. intros ->. cbn in Hnd. discriminate. }
+      destruct t as [|c2 s'']; [contradiction|]. clear Hfirst Hsymok.
+      assert (Hc2 : is_symbol_terminator c2 = false).
+      { inversion Hn as [|? ? _ Hn1]; subst. inversion Hn1; assumption. }
       cbn [app] in Ha0.
       destruct (m_eat r0 46 _ Ha0 Hp0) as (r1 & E1 & Ha1 & Hk1).
-      destruct (m_peek_or_null_cons r1 c2 _ Ha1) as (r2 & E2 & Ha2 & Hp2 & Hk2).
-      assert (E12 : (eat_char ;;; peek_or_null) r0 = (Ok c2, r2)) by (rewrite (bind_ok _ _ _ _ _ E1); exact E2).
+      destruct (m_peek_cons r1 c2 _ Ha1) as (r2 & E2 & Ha2 & Hp2 & Hk2).
+      assert (E12 : (eat_char ;;; peek) r0 = (Ok (Some c2), r2)) by (rewrite (bind_ok _ _ _ _ _ E1); exact E2).
       rewrite (pbind_eq _ _ _ _ _ (liftR_ok _ r0 D _ _ E12)).
-      replace ((c2 =? 0) || is_delimiter c2) with false by (rewrite Hcd; lia).
+      cbn [lone_dot]. rewrite Hc2.
       assert (Hn' : no_terminator (c2 :: s'')) by (inversion Hn; assumption).
       destruct (parse_symbol_spec (c2 :: s'') f [46] more r2 ltac:(cbn [length] in *; lia) Hn'
                   (delim_ok_terminator more Hm) Ha2 Hsok) as (r3 & E3 & Ha3 & Hk3 & _).
@@ -503,10 +505,10 @@ Section Roundtrip.
     rewrite (pbind_eq _ _ _ _ _ (liftR_ok _ r D _ _ E0)).
     change (is_closer 46) with false. change (46 =? 46) with true. cbv iota.
     destruct (m_eat r0 46 _ Ha0 Hp0) as (r1 & E1 & Ha1 & Hk1).
-    destruct (m_peek_or_null_cons r1 32 _ Ha1) as (r2 & E2 & Ha2 & Hp2 & Hk2).
-    assert (E12 : (eat_char ;;; peek_or_null) r0 = (Ok 32, r2)) by (rewrite (bind_ok _ _ _ _ _ E1); exact E2).
+    destruct (m_peek_cons r1 32 _ Ha1) as (r2 & E2 & Ha2 & Hp2 & Hk2).
+    assert (E12 : (eat_char ;;; peek) r0 = (Ok (Some 32), r2)) by (rewrite (bind_ok _ _ _ _ _ E1); exact E2).
     rewrite (pbind_eq _ _ _ _ _ (liftR_ok _ r0 D _ _ E12)).
-    change ((32 =? 0) || is_delimiter 32) with true. cbv iota.
+    change (lone_dot (Some 32)) with true. cbv iota.
     destruct acc as [|x acc]; [exfalso; apply (Hacc Hc Hn); reflexivity|].
     destruct (HPd f r2 D [32] (41 :: rest) (or_intror eq_refl) Hok HD HD' ltac:(unfold K; lia) Ha2 (or_intror eq_refl))
       as (r3 & E3 & Ha3 & Hk3).
